@@ -150,13 +150,15 @@ def rule_receiver_model(ctx):
         else:
             ctx.check("C13.2", rets[0].value == m["p_ase"], fi_p, rets[0].node, f"p_ase [amplify={amp}] = {rets[0].value!r}", "NF*h*f0*(G-1)*BW_opt (0 when unamplified)",
                       f"differs from the model {m['p_ase']!r}")
-    for modn, amp in itertools.product(("ook", "ppm"), (True, False)):
+    # an unamplified receiver is also asked for with the EDFA keywords still set (one parameter dictionary, `amplify` toggled):
+    # "amplified/unamplified" is decided by `amplify`, never by whether G happens to be given
+    for modn, (amp, given) in itertools.product(("ook", "ppm"), ((True, True), (False, False), (False, True))):
         M = Form.num(2) if modn == "ook" else S("M")
         m = model(amp, M, f0_w)
         ass = {"modulation": modn, "amplify": amp}
         for k in ("G", "NF", "BW_opt"):
-            ass[k] = "notnone" if amp else "none"
-        case = f"{modn}, amplify={amp}"
+            ass[k] = "notnone" if given else "none"
+        case = f"{modn}, amplify={amp}" + (", EDFA keywords given" if given and not amp else "")
         fi_a = pkg.func("utils.average_voltages")
         it = Interp(pkg, assumptions=ass)
         outs = it.run(fi_a)
